@@ -1,12 +1,17 @@
 #!/bin/bash
-# usage: tools/try_seed.sh <patch.diff> <PROP> [<PROP>...]   — applies a seeded change to /repo, runs the checks, reverts
+# usage: tools/try_seed.sh <patch.diff> <PROP> [<PROP>...]
+# applies a seeded change to /repo, runs the quick checks, reverts /repo, and puts back the
+# evidence files and generated Lean sources (they must only ever describe the unchanged tree)
 set -u
 patch="$1"; shift
 cd /repo || exit 2
 if ! git diff --quiet; then echo "repo not clean"; exit 2; fi
 git apply "$patch" || { echo "patch does not apply"; exit 2; }
+save=$(mktemp -d /tmp/tryseed.XXXX)
+cp -r /verif/evidence "$save/evidence"; cp -r /verif/lean/DEvo/DEvo/Generated "$save/Generated"
 for p in "$@"; do
   echo "=== $p with $(basename $(dirname $patch))"
-  (cd /verif && timeout 900 ./check $p quick 2>&1 | grep -E "VIOLATION|KNOWN-FINDING|what:|broken|seed=|INFRA|TIMEOUT" | cut -c1-260 | head -14)
+  (cd /verif && timeout 900 ./check $p ${TIER:-quick} 2>&1 | grep -E "VIOLATION|KNOWN-FINDING|what:|broken|seed=|INFRA|TIMEOUT" | cut -c1-260 | head -14)
 done
 git checkout -- . && git status --short | head -3
+cp "$save"/evidence/* /verif/evidence/; cp "$save"/Generated/* /verif/lean/DEvo/DEvo/Generated/; rm -rf "$save"
